@@ -62,11 +62,11 @@ func filters() []Filter {
 type Position struct {
 	Name  string
 	Edges string
-	Sib   int // 1: an in-scope sibling asset is added before the tested node, 2: after it
+	Sib   int // 1: an in-scope sibling asset is added before the tested node, 2: after it, 3: before it and on the tested URL's own host (in scope only through its path)
 }
 
 func positions(tier string) []Position {
-	ps := []Position{{"seed", "", 0}, {"redirect", "R", 0}, {"asset", "A", 0}}
+	ps := []Position{{"seed", "", 0}, {"redirect", "R", 0}, {"asset", "A", 0}, {"asset+same-host-sibling-before", "A", 3}}
 	if tier == "thorough" {
 		ps = append(ps, Position{"redirect>asset", "RA", 0}, Position{"asset>redirect", "AR", 0}, Position{"asset>asset", "AA", 0},
 			Position{"asset+sibling-before", "A", 1}, Position{"asset+sibling-after", "A", 2})
